@@ -48,6 +48,12 @@ Record bug := mkbug {
 Fixpoint assoc (k : str) (l : list (str * str)) : option str :=
   match l with [] => None | (k', v) :: t => if str_eqb k k' then Some v else assoc k t end.
 
+(* a code point that is part of a word for the full-text index: ASCII letters and digits, anything beyond ASCII (the
+   harness checks every text against unicode.IsLetter/IsDigit); everything else separates words and is dropped:
+   the operators of bleve's query string language (plus, minus, =, &, |, <, >, !, brackets of all kinds, ^, the double quote, ~, star, ?, colon, backslash, slash) are among them *)
+Definition is_word_rune (r : rune) : bool :=
+  (N.leb 48 r && N.leb r 57) || (N.leb 65 r && N.leb r 90) || (N.leb 97 r && N.leb r 122) || N.leb 128 r.
+
 Section Eval.
 (* strings.ToLower, code point by code point *)
 Variable lower : rune -> rune.
@@ -82,16 +88,17 @@ Definition matches (q : query) (b : bug) : bool :=
   and_match (if q_nolabel q then [f_nolabel] else []) b &&
   and_match (map f_title (q_title q)) b.
 
-(* full-text search (repository/index_bleve.go Search over the "bugs" index): a term without U+0020 is looked up
-   as a token, a term with spaces as a phrase (its words in a row inside one indexed text); the index answers
-   with the bugs matching any of the terms *)
+(* full-text search (repository/index_bleve.go Search over the "bugs" index): a term is text to look for: it is cut
+   into words like the indexed texts (lower-cased, at every code point that is no letter and no digit) and matches a
+   bug that has these words in a row inside one indexed text (one word: that word); a term without any word matches
+   nothing; the index answers with the bugs matching any of the terms *)
 Fixpoint words_go (s cur : str) : list str :=
   match s with
   | [] => match cur with [] => [] | _ => [rev cur] end
-  | r :: t => if N.eqb r 32 then match cur with [] => words_go t [] | _ => rev cur :: words_go t [] end
-              else words_go t (r :: cur)
+  | r :: t => if is_word_rune r then words_go t (r :: cur)
+              else match cur with [] => words_go t [] | _ => rev cur :: words_go t [] end
   end.
-Definition term_words (t : str) : list str := words_go t [].
+Definition term_words (t : str) : list str := words_go (lower_s t) [].
 Fixpoint wprefixb (p l : list str) : bool :=
   match p, l with [], _ => true | x :: p', y :: l' => str_eqb x y && wprefixb p' l' | _ :: _, [] => false end.
 Fixpoint winfixb (p l : list str) : bool := wprefixb p l || match l with [] => false | _ :: t => winfixb p t end.
@@ -291,6 +298,59 @@ Definition lower_rune (r : rune) : rune :=
   else r.
 
 (* ---- the search rule spelled out ---- *)
+
+Lemma words_go_sep p : forall s, forallb (fun r => negb (is_word_rune r)) p = true -> words_go (p ++ s) [] = words_go s [].
+Proof. induction p as [|r t IH]; intros s H; [reflexivity|]. cbn in H. apply andb_true_iff in H as [H1 H2].
+  apply negb_true_iff in H1. cbn. rewrite H1. now apply IH. Qed.
+
+Lemma words_go_word w : forall s cur, forallb is_word_rune w = true -> words_go (w ++ s) cur = words_go s (rev w ++ cur).
+Proof. induction w as [|r t IH]; intros s cur H; [reflexivity|]. cbn in H. apply andb_true_iff in H as [H1 H2].
+  cbn. rewrite H1, IH by exact H2. now rewrite <- app_assoc. Qed.
+
+Lemma words_go_sep_flush p : forall cur, cur <> [] -> forallb (fun r => negb (is_word_rune r)) p = true -> words_go p cur = [rev cur].
+Proof. induction p as [|r t IH]; intros cur Hc H; cbn.
+  - destruct cur; [congruence|reflexivity].
+  - cbn in H. apply andb_true_iff in H as [H1 H2]. apply negb_true_iff in H1. rewrite H1.
+    destruct cur as [|c cur']; [congruence|]. assert (E : words_go t [] = []).
+    { rewrite <- (app_nil_r t). now rewrite words_go_sep. }
+    now rewrite E. Qed.
+
+(* operators and punctuation around a word do not change what the term looks for; alone they look for nothing *)
+Theorem term_words_decorated lower (Hl : forall r, is_word_rune (lower r) = is_word_rune r) p w s :
+  forallb (fun r => negb (is_word_rune r)) p = true -> forallb (fun r => negb (is_word_rune r)) s = true ->
+  w <> [] -> forallb is_word_rune w = true -> term_words lower (p ++ w ++ s) = [lower_s lower w].
+Proof. intros Hp Hs Hw Hww. unfold term_words, lower_s. rewrite !map_app.
+  assert (P : forall l, forallb (fun r => negb (is_word_rune r)) l = true -> forallb (fun r => negb (is_word_rune r)) (map lower l) = true).
+  { induction l as [|r t IH]; cbn; [reflexivity|]. intros H. apply andb_true_iff in H as [H1 H2]. now rewrite Hl, H1, IH. }
+  assert (W : forallb is_word_rune (map lower w) = true).
+  { clear - Hl Hww. induction w as [|r t IH]; cbn in *; [reflexivity|]. apply andb_true_iff in Hww as [H1 H2]. now rewrite Hl, H1, IH. }
+  rewrite words_go_sep by now apply P. rewrite words_go_word by exact W. rewrite app_nil_r.
+  rewrite words_go_sep_flush; [now rewrite rev_involutive| |now apply P].
+  destruct w; [congruence|]. cbn. intros E. apply (f_equal (@length _)) in E. rewrite app_length in E. cbn in E. lia. Qed.
+
+Theorem term_words_operators lower (Hl : forall r, is_word_rune (lower r) = is_word_rune r) p :
+  forallb (fun r => negb (is_word_rune r)) p = true -> term_words lower p = [].
+Proof. intros Hp. unfold term_words, lower_s. rewrite <- (app_nil_r (map lower p)). rewrite words_go_sep; [reflexivity|].
+  induction p as [|r t IH]; cbn in *; [reflexivity|]. apply andb_true_iff in Hp as [H1 H2]. now rewrite Hl, H1, IH. Qed.
+
+Lemma lower_rune_word r : is_word_rune (lower_rune r) = is_word_rune r.
+Proof. assert (Hi : forall a b, 128 <= a -> 128 <= b -> is_word_rune a = is_word_rune b).
+  { intros a b Ha Hb. unfold is_word_rune. apply N.leb_le in Ha, Hb. now rewrite Ha, Hb, !orb_true_r. }
+  unfold lower_rune.
+  destruct (N.leb 65 r && N.leb r 90) eqn:E1.
+  { apply andb_true_iff in E1 as [A B]. unfold is_word_rune. rewrite A, B. apply N.leb_le in A, B.
+    assert (C : N.leb 97 (r + 32) && N.leb (r + 32) 122 = true) by (apply andb_true_iff; split; apply N.leb_le; lia).
+    rewrite C. cbn. now rewrite !orb_true_r. }
+  destruct (N.leb 192 r && N.leb r 222 && negb (N.eqb r 215)) eqn:E2.
+  { apply andb_true_iff in E2 as [E2 _]. apply andb_true_iff in E2 as [A _]. apply N.leb_le in A. apply Hi; lia. }
+  destruct (N.leb 913 r && N.leb r 939 && negb (N.eqb r 930)) eqn:E3.
+  { apply andb_true_iff in E3 as [E3 _]. apply andb_true_iff in E3 as [A _]. apply N.leb_le in A. apply Hi; lia. }
+  destruct (N.leb 1040 r && N.leb r 1071) eqn:E4.
+  { apply andb_true_iff in E4 as [A _]. apply N.leb_le in A. apply Hi; lia. }
+  destruct (N.leb 1024 r && N.leb r 1039) eqn:E5.
+  { apply andb_true_iff in E5 as [A _]. apply N.leb_le in A. apply Hi; lia. }
+  reflexivity. Qed.
+
 Lemma wprefixb_spec p : forall l, wprefixb p l = true <-> exists post, l = p ++ post.
 Proof. induction p as [|x p IH]; intros l; cbn.
   - split; [intros _; now exists l|reflexivity].
@@ -307,11 +367,11 @@ Proof. induction l as [|y t IH]; cbn [winfixb]; rewrite orb_true_iff.
     + intros [[post H]|(pre & post & H)]; [now exists [], post|]. exists (y :: pre), post. now rewrite H.
     + intros (pre & post & H). destruct pre as [|z pre]; [left; now exists post|]. right. inversion H; subst. now exists pre, post. Qed.
 
-Theorem found_spec q b : found q b = true <->
-  (q_search q = [] \/ exists t, In t (q_search q) /\ term_words t <> [] /\
-     exists text pre post, In text (b_texts b) /\ text = pre ++ term_words t ++ post).
+Theorem found_spec lower q b : found lower q b = true <->
+  (q_search q = [] \/ exists t, In t (q_search q) /\ term_words lower t <> [] /\
+     exists text pre post, In text (b_texts b) /\ text = pre ++ term_words lower t ++ post).
 Proof. unfold found. destruct (q_search q) as [|t0 ts] eqn:E; [split; auto|]. rewrite existsb_exists. split.
-  - intros (t & Hin & H). right. exists t. split; [exact Hin|]. unfold term_found in H. destruct (term_words t) as [|w ws] eqn:Ew; [discriminate|].
+  - intros (t & Hin & H). right. exists t. split; [exact Hin|]. unfold term_found in H. destruct (term_words lower t) as [|w ws] eqn:Ew; [discriminate|].
     split; [discriminate|]. apply existsb_exists in H as (text & Ht & H). apply winfixb_spec in H as (pre & post & H). now exists text, pre, post.
   - intros [H|(t & Hin & Hne & text & pre & post & Ht & H)]; [discriminate|]. exists t. split; [exact Hin|]. unfold term_found.
-    destruct (term_words t) as [|w ws] eqn:Ew; [congruence|]. apply existsb_exists. exists text. split; [exact Ht|]. apply winfixb_spec. now exists pre, post. Qed.
+    destruct (term_words lower t) as [|w ws] eqn:Ew; [congruence|]. apply existsb_exists. exists text. split; [exact Ht|]. apply winfixb_spec. now exists pre, post. Qed.
